@@ -445,8 +445,11 @@ def run_success_case(case):
         atoms = None
         text_override = built[0]
         d = case["desc"]
-        label = (f"{ff}/{d['x']}@{d['pos']}/"
-                 + "+".join(":".join(map(str, e)) for e in d["env"]))
+        if "hood" in d:
+            label = f"{ff}/hood:" + ":".join(map(str, d["hood"]))
+        else:
+            label = (f"{ff}/{d['x']}@{d['pos']}/"
+                     + "+".join(":".join(map(str, e)) for e in d["env"]))
         opts = [f"--ff={ff}"] + list(s3.OPTION_SETS[d["opt"]])
         if d.get("water_h"):
             label += "water-with-only:" + "+".join(d["water_h"])
@@ -578,6 +581,15 @@ def enumerate_cases(tier, seed):
               + s3.torsion_cases("AMBER")):
         if s3.build_case(d) is not None:
             cases.append({"mode": "success", "kind": "s3", "ff": d["ff"],
+                          "desc": d})
+    # complete fragments of the bundled structures: the spatial
+    # neighbourhood of every residue, each fragment closed with its OXT
+    for ff in (("AMBER",) if tier == "quick" else ("AMBER", "PARSE",
+                                                   "CHARMM")):
+        for d in s3.hood_cases(ff, ["1AJJ.pdb", "1BX8.pdb", "cterm_hid.pdb"]
+                               if tier == "quick" else None, oxt=True,
+                               complete_only=True):
+            cases.append({"mode": "success", "kind": "s3", "ff": ff,
                           "desc": d})
     for ff in corpus.FFS:
         for wn in (("HOH", "OW"), ("HOH", "OH2"), ("WAT", "O"),
